@@ -532,6 +532,57 @@ example : (configure [⟨true, [⟨"pkg.mod.".toList, false, some false, none, n
 example : entryMatches ⟨"pkg.mod.rep".toList, true, some false, none, none⟩ rerunRule.name = false ∧
     entryMatches ⟨"pkg.mod.rep".toList, false, some false, none, none⟩ rerunRule.name = true := by decide
 
+/-! ### run modes: incremental evaluation, sub-graph after sub-graph -/
+
+/-- for ANY partition of the rules into sub-graphs (and any order inside each), incremental evaluation leaves
+exactly the evaluator state of ONE serial run whose order is the concatenation of the sub-graph orders — nothing is
+evaluated twice, nothing is left out -/
+theorem incremental_is_a_serial_run (env : Env) (seed : List Comp) (subgraphs : List (List Rule)) :
+    processIncremental env seed subgraphs = run env seed subgraphs.flatten := by
+  unfold processIncremental
+  rw [history_is_one_run, allFired_runs, foldl_stepG_all_in_graph]
+  rfl
+
+/-- hence the partition itself does not matter, only the order it induces … -/
+theorem incremental_partition_irrelevant (env : Env) (seed : List Comp) (p q : List (List Rule))
+    (h : p.flatten = q.flatten) : processIncremental env seed p = processIncremental env seed q := by
+  rw [incremental_is_a_serial_run, incremental_is_a_serial_run, h]
+
+/-- … and every rule of every sub-graph has its one outcome, accounted exactly once (`outcome_exclusive` for
+incremental evaluation; the rules of a partition are distinct and not seeded) -/
+theorem incremental_outcomes (env : Env) (seed : List Comp) (subgraphs : List (List Rule))
+    (h : Fresh seed subgraphs.flatten) (r : Rule) (f : Final) (hmem : (r, f) ∈ finals env seed subgraphs.flatten) :
+    tally (processIncremental env seed subgraphs) r.id = f.tally := by
+  rw [incremental_is_a_serial_run]
+  exact outcome_exclusive env seed _ h r f hmem
+
+/-- a sub-graph that is evaluated again (by mistake, or because two graphs overlap) changes nothing but the
+exception log: listings are those of the de-duplicated order (`history_is_single_pass`) -/
+theorem incremental_repeat_harmless (env : Env) (hcfg : WFCfg env.cfg) (seed : List Comp) (subgraphs : List (List Rule))
+    (hcons : Consistent subgraphs.flatten) (hseed : ∀ r ∈ subgraphs.flatten, r.id ∉ seed) :
+    forget (processIncremental env seed subgraphs) =
+      forget (run env seed (effective [] (subgraphs.flatten.map (·, true)))) := by
+  unfold processIncremental
+  have h := history_is_single_pass env hcfg seed (subgraphs.map (fun g => Op.run (g.map (·, true))))
+    (by
+      have e : (subgraphs.flatten.map (·, true)).map (·.1) = subgraphs.flatten := by
+        generalize subgraphs.flatten = l
+        induction l with
+        | nil => rfl
+        | cons a rest ih => simp only [List.map_cons, ih]
+      rw [allFired_runs, e]; exact hcons)
+    (by rw [allFired_runs]; intro f hf; obtain ⟨r, hr, rfl⟩ := List.mem_map.mp hf; exact hseed r hr)
+  rw [h.1, allFired_runs]
+
+/-- non-vacuity: two disjoint sub-graphs; evaluating only the first one (a drained generator) loses the second rule -/
+def islandRule : Rule :=
+  ⟨2, "pkg.other.check".toList, some "other".toList, [], none, [], [], [], true, .ret c_make_pass (.str "P".toList) []⟩
+set_option maxRecDepth 100000 in
+example : ((processIncremental ⟨cfg, 65535, false, fun _ => []⟩ [] [[rerunRule], [islandRule]]).results.map
+    (fun kv => kv.2.map (·.src))) = [[1], [2]] ∧
+    ((processIncremental ⟨cfg, 65535, false, fun _ => []⟩ [] [[rerunRule]]).results.map
+    (fun kv => kv.2.map (·.src))) = [[1]] := by decide
+
 /-! ### get_response -/
 
 /-- what `get_response()` puts under every heading, for every reachable evaluator state: the analysis block; the
